@@ -69,7 +69,7 @@ var Props = []PropInfo{
 		NotDecided:  "SQL semantics of the generated joins for concrete table contents; tie-breaking among equal timestamps.",
 		Assumptions: trust("goqu v9 semantics: Limit(0) clears the limit, Gte/Lte are inclusive comparisons", "SQLite compares identifiers ASCII case-insensitively")},
 	{ID: "C07",
-		Explanation: "Structural necessary conditions of router delivery: nothing reachable from Publish blocks (no bare send/receive, no blocking select, no exclusive lock, no handler call) (PUB-NB) and nothing reachable from it writes shared memory (PUB-RO); the walk from Publish to the per-subscriber send leaves no loop early, so every registered subscriber is offered the event (PUB-ALL); Subscribe/Publish/Unsubscribe are called synchronously before the EOSE/OK is returned, with the right ids (SUB-SYNC); UnsubscribeAll of the session id is deferred before the loop (UNSUB-ALL); every reply constructor is labelled with the id of the request bound in its clause (LABEL); the registry is keyed connection-id then subscription-id, and Unsubscribe drops the connection's entry at most after removing the named subscription and finding the table empty (SUB-KEY); the per-connection queue has the configured capacity and one receiver (BUF).",
+		Explanation: "Structural necessary conditions of router delivery: nothing reachable from Publish blocks (no bare send/receive, no blocking select, no exclusive lock, no handler call) (PUB-NB) and nothing reachable from it writes shared memory (PUB-RO); a lazily filled copy of the subscriber table, should one be added, is invalidated by every writer of the table and cannot be filled over an invalidation (MEMO-COHERENT); the walk from Publish to the per-subscriber send leaves no loop early, so every registered subscriber is offered the event (PUB-ALL); Subscribe/Publish/Unsubscribe are called synchronously before the EOSE/OK is returned, with the right ids (SUB-SYNC); UnsubscribeAll of the session id is deferred before the loop (UNSUB-ALL); every reply constructor is labelled with the id of the request bound in its clause (LABEL); the registry is keyed connection-id then subscription-id, and Unsubscribe drops the connection's entry at most after removing the named subscription and finding the table empty (SUB-KEY); the per-connection queue has the configured capacity and one receiver (BUF).",
 		NotDecided:  "exactly-once / real-time-order delivery over interleavings; drop counts under back-pressure.",
 		Assumptions: trust("sync.RWMutex semantics")},
 	{ID: "C08",
@@ -93,7 +93,7 @@ var Props = []PropInfo{
 		NotDecided:  "the WebSocket library; frame-level behaviour.",
 		Assumptions: trust("coder/websocket Read/Write semantics")},
 	{ID: "C13",
-		Explanation: "Structural necessary conditions of termination/release: every channel operation in the three library packages is discharged by a cancel-aware select, a bounded-buffer argument, a token channel, a join on own goroutines, or range-after-close (CHAN-DISC); goroutines defer cancel (GO-CANCEL); for-loops in session code can leave on ctx.Done (LOOP-EXIT); context-taking calls receive a context derived from the caller's (CTX-PASS), and the goroutines of a function that cancels its own derived context on return block only under that context (GO-CTX); a deferred join is preceded (in run order) by a cancel (JOIN-ORDER); inbound receives are comma-ok and return on close (RECV-OK); child inbound channels are closed by their sender (CHILD-CLOSE); UnsubscribeAll and ServeNostrEnd are deferred (UNSUB-ALL, START-END); every WebSocket write/ping without deadline is controlled by SendTimeout only (WS-DEADLINE).",
+		Explanation: "Structural necessary conditions of termination/release: every channel operation in the three library packages is discharged by a cancel-aware select, a bounded-buffer argument, a token channel, a join on own goroutines, or range-after-close (CHAN-DISC); goroutines defer cancel (GO-CANCEL); for-loops in session code can leave on ctx.Done (LOOP-EXIT); context-taking calls receive a context derived from the caller's (CTX-PASS), and the goroutines of a function that cancels its own derived context on return block only under that context (GO-CTX); a cached copy of the subscriber table is invalidated on the session-end path as on every other writer (MEMO-COHERENT); a deferred join is preceded (in run order) by a cancel (JOIN-ORDER); inbound receives are comma-ok and return on close (RECV-OK); child inbound channels are closed by their sender (CHILD-CLOSE); UnsubscribeAll and ServeNostrEnd are deferred (UNSUB-ALL, START-END); every WebSocket write/ping without deadline is controlled by SendTimeout only (WS-DEADLINE).",
 		NotDecided:  "promptness in seconds; goroutine dumps; third-party blocking calls.",
 		Assumptions: trust("context cancellation propagates to derived contexts", "coder/websocket honours the context of Read/Write/Ping")},
 	{ID: "C14",
